@@ -5,13 +5,16 @@ use simplesl_macros::export;
 pub mod inner {
     use crate::join;
     pub use {crate::variable::Variable, std::io};
+    use std::io::Write;
 
+    // a write to stdout may fail (closed pipe, full device): the print functions return all the
+    // same, `println!` would panic
     pub fn print(var: &Variable) {
-        println!("{var}");
+        let _ = writeln!(io::stdout(), "{var}");
     }
 
     pub fn print_array(array: &[Variable], sep: &str) {
-        println!("{}", join(array, sep));
+        let _ = writeln!(io::stdout(), "{}", join(array, sep));
     }
 
     pub fn cgetline() -> io::Result<String> {
